@@ -181,7 +181,7 @@ def mapExcept {α β : Type} (f : α → Except Err β) : List α → Except Err
     pure (y :: ys)
 
 /-- scalers of every object that live in buffer `b` -/
-def daqBufferScalers (e : Endian) (b : Nat) (rows : List Bytes) :
+def daqBufferScalers (e : Endian) (b : Nat) (rows : List Bytes) (crop : Bytes → Option Nat) :
     List SegObj → RawChunk → RawChunk → Except Err (RawChunk × RawChunk)
   | [], data, scal => .ok (data, scal)
   | o :: os, data, scal => do
@@ -189,16 +189,23 @@ def daqBufferScalers (e : Endian) (b : Nat) (rows : List Bytes) :
     let (data, scal) ← scs.foldl (fun acc sc => do
         let (data, scal) ← acc
         let vals ← mapExcept (daqScalerValue e sc) rows
+        -- truncated final chunk: only the rows available for all scalers of this channel
+        let vals := match crop o.path with
+          | some k => vals.take k
+          | none => vals
         if o.dataType = some tyDaqmxRaw then
           let cur := ((scal.find? (·.1 = o.path)).bind (·.2.scalers)).getD []
           let cur' := if cur.any (·.1 = sc.scaleId) then cur.map (fun x => if x.1 = sc.scaleId then (x.1, vals) else x)
                       else cur ++ [(sc.scaleId, vals)]
           pure (data, dictSet scal o.path { scalers := some cur' })
         else pure (dictSet data o.path { data := some vals }, scal)) (.ok (data, scal))
-    daqBufferScalers e b rows os data scal
+    daqBufferScalers e b rows crop os data scal
 
 /-- `DaqmxDataReader._read_data_chunk` -/
-def readDaqmxChunk (file : Bytes) (s : Segment) (d : List SegObj) : F RawChunk := do
+def readDaqmxChunk (file : Bytes) (s : Segment) (d : List SegObj) (chunkIndex : Nat) : F RawChunk := do
+  let crop : Bytes → Option Nat := fun p => match s.override with
+    | some ov => if chunkIndex + 1 = s.numChunks then some (overrideGet ov p) else none
+    | none => none
   let dims ← match bufferDimensions d with
     | .ok x => pure x
     | .error x => throw x
@@ -206,7 +213,7 @@ def readDaqmxChunk (file : Bytes) (s : Segment) (d : List SegObj) : F RawChunk :
     | _, [], data, scal => pure (data, scal)
     | b, (n, w) :: rest, data, scal => do
       let rows ← readRows file w n
-      match daqBufferScalers s.endian b rows d data scal with
+      match daqBufferScalers s.endian b rows crop d data scal with
       | .ok (data, scal) => bufs (b + 1) rest data scal
       | .error x => throw x
   let (data, scal) ← bufs 0 dims [] []
@@ -232,7 +239,7 @@ def readChunksSeq (file : Bytes) (s : Segment) (kind : ReaderKind) (d : List Seg
   | _, 0 => pure []
   | i, k + 1 => do
     let c ← match kind with
-      | .daqmx => readDaqmxChunk file s d
+      | .daqmx => readDaqmxChunk file s d i
       | _ => readContiguousChunk file s i d []
     let rest ← readChunksSeq file s kind d (i + 1) k
     pure (c :: rest)
